@@ -97,6 +97,7 @@ pub struct AttributeName {
 pub enum TypeAttribute {
     Subtype,
     Element,
+    Base,
 }
 
 #[derive(PartialEq, Debug, Copy, Clone, Eq)]
